@@ -7,11 +7,17 @@ from fractions import Fraction as F
 import numpy as np
 
 
+# optional converter applied to every number read from a case (used for the discarded float pre-run, see impl_runner)
+CONV = None
+
+
 def num(s):
     if isinstance(s, (int, F)):
-        return F(s)
-    n, d = s.split("/")
-    return F(int(n), int(d))
+        x = F(s)
+    else:
+        n, d = s.split("/")
+        x = F(int(n), int(d))
+    return CONV(x) if CONV is not None else x
 
 
 def nums(l):
